@@ -476,3 +476,145 @@ theorem gridRow_periodic (sz : Nat → Nat) (pre post : List Nat) (d : Nat) (hd 
   rw [this]
 
 end Usid.UV
+
+namespace Usid.UV
+open Usid
+
+/-! ### `unitValuesRow` only looks at the ORDER of the index values, not at the values themselves -/
+
+/-- `f` is strictly increasing on the members of `l` -/
+def StrictOn (f : Nat → Nat) (l : List Nat) : Prop := ∀ a ∈ l, ∀ b ∈ l, a < b → f a < f b
+
+theorem StrictOn.inj {f : Nat → Nat} {l : List Nat} (h : StrictOn f l) {a b : Nat} (ha : a ∈ l) (hb : b ∈ l)
+    (e : f a = f b) : a = b := by
+  rcases Nat.lt_trichotomy a b with h1 | h1 | h1
+  · have := h a ha b hb h1; omega
+  · exact h1
+  · have := h b hb a ha h1; omega
+
+theorem StrictOn.mono {f : Nat → Nat} {l : List Nat} (h : StrictOn f l) {a b : Nat} (ha : a ∈ l) (hb : b ∈ l)
+    (e : a ≤ b) : f a ≤ f b := by
+  rcases Nat.lt_or_ge a b with h1 | h1
+  · exact Nat.le_of_lt (h a ha b hb h1)
+  · have : a = b := by omega
+    rw [this]; exact Nat.le_refl _
+
+theorem StrictOn.sub {f : Nat → Nat} {l l' : List Nat} (h : StrictOn f l) (hs : ∀ x ∈ l', x ∈ l) : StrictOn f l' :=
+  fun a ha b hb hab => h a (hs a ha) b (hs b hb) hab
+
+theorem min_map (f : Nat → Nat) (l : List Nat) (h : StrictOn f l) (m : Nat) (hm : l.min? = some m) :
+    (l.map f).min? = some (f m) := by
+  rw [List.min?_eq_some_iff] at hm ⊢
+  refine ⟨List.mem_map.mpr ⟨m, hm.1, rfl⟩, ?_⟩
+  intro b hb
+  obtain ⟨a, ha, rfl⟩ := List.mem_map.mp hb
+  exact h.mono hm.1 ha (hm.2 a ha)
+
+theorem getD_mem_of_lt (l : List Nat) (i : Nat) (h : i < l.length) : l.getD i 0 ∈ l := by
+  rw [List.getD_eq_getElem?_getD, List.getElem?_eq_getElem h]; exact List.getElem_mem h
+
+theorem getD_map_of_lt (f : Nat → Nat) (l : List Nat) (i : Nat) (h : i < l.length) :
+    (l.map f).getD i 0 = f (l.getD i 0) := by
+  simp [List.getD_eq_getElem?_getD, List.getElem?_eq_getElem h]
+
+theorem whereEq_map (f : Nat → Nat) (l : List Nat) (h : StrictOn f l) (m : Nat) (hm : m ∈ l) :
+    whereEq (l.map f) (f m) = whereEq l m := by
+  unfold whereEq
+  rw [List.length_map]
+  apply List.filter_congr
+  intro i hi
+  have hi' := List.mem_range.mp hi
+  rw [getD_map_of_lt f l i hi']
+  by_cases e : l.getD i 0 = m
+  · rw [e]; simp
+  · have : f (l.getD i 0) ≠ f m := fun e' => e (h.inj (getD_mem_of_lt l i hi') hm e')
+    rw [beq_eq_false_iff_ne.mpr this, beq_eq_false_iff_ne.mpr e]
+
+theorem changePositions_map (f : Nat → Nat) (l : List Nat) (h : StrictOn f l) :
+    changePositions (l.map f) = changePositions l := by
+  unfold changePositions
+  rw [List.length_map]
+  apply List.filter_congr
+  intro j hj
+  have hj' := List.mem_range.mp hj
+  by_cases h0 : j = 0
+  · simp [h0]
+  · rw [getD_map_of_lt f l j hj', getD_map_of_lt f l (j - 1) (by omega)]
+    by_cases e : l.getD j 0 = l.getD (j - 1) 0
+    · rw [e]; simp
+    · have : f (l.getD j 0) ≠ f (l.getD (j - 1) 0) :=
+        fun e' => e (h.inj (getD_mem_of_lt l j hj') (getD_mem_of_lt l (j - 1) (by omega)) e')
+      rw [bne_iff_ne.mpr this, bne_iff_ne.mpr e]
+
+/-- equality of two windows of the row is preserved by the relabelling -/
+theorem map_beq_map (f : Nat → Nat) (l : List Nat) (h : StrictOn f l) : ∀ (a b : List Nat), (∀ x ∈ a, x ∈ l) → (∀ x ∈ b, x ∈ l) →
+    ((a.map f) == (b.map f)) = (a == b)
+  | [], [], _, _ => rfl
+  | [], _ :: _, _, _ => rfl
+  | _ :: _, [], _, _ => rfl
+  | x :: xs, y :: ys, ha, hb => by
+    have ih := map_beq_map f l h xs ys (fun z hz => ha z (List.mem_cons_of_mem _ hz)) (fun z hz => hb z (List.mem_cons_of_mem _ hz))
+    have hx := ha x (by simp)
+    have hy := hb y (by simp)
+    show ((f x :: xs.map f) == (f y :: ys.map f)) = ((x :: xs) == (y :: ys))
+    simp only [List.cons_beq_cons, ih]
+    by_cases e : x = y
+    · simp [e]
+    · have : f x ≠ f y := fun e' => e (h.inj hx hy e')
+      rw [beq_eq_false_iff_ne.mpr this, beq_eq_false_iff_ne.mpr e]
+
+theorem subsOf_map (f : Nat → Nat) (l ts : List Nat) : subsOf (l.map f) ts = (subsOf l ts).map (fun s => s.map f) := by
+  unfold subsOf
+  rw [List.map_map]
+  apply List.map_congr_left
+  intro i _
+  simp [List.map_take, List.map_drop]
+
+/-- **Relabelling invariance.**  Replacing the index values by any strictly increasing relabelling does not
+    change what `get_unit_values` computes for the dimension. -/
+theorem unitValuesRow_relabel (f : Nat → Nat) (inds : List Nat) (vals : List Int) (h : StrictOn f inds) :
+    unitValuesRow (inds.map f) vals = unitValuesRow inds vals := by
+  unfold unitValuesRow
+  cases hm : inds.min? with
+  | none =>
+    have : inds = [] := by simpa using hm
+    subst this; simp
+  | some mn =>
+    have hmem : mn ∈ inds := (List.min?_eq_some_iff.mp hm).1
+    rw [min_map f inds h mn hm]
+    simp only [whereEq_map f inds h mn hmem, List.length_map, subsOf_map]
+    -- the guard on the sub-sections
+    have hmemsub : ∀ ts, ∀ s ∈ subsOf inds ts, ∀ x ∈ s, x ∈ inds := by
+      intro ts s hs x hx
+      unfold subsOf at hs
+      obtain ⟨i, _, rfl⟩ := List.mem_map.mp hs
+      exact List.mem_of_mem_drop (List.mem_of_mem_take hx)
+    have hall : ∀ ts, ((subsOf inds ts).map (fun s => s.map f)).all
+          (fun s => s == ((subsOf inds ts).map (fun s => s.map f)).headD []) =
+        (subsOf inds ts).all (fun s => s == (subsOf inds ts).headD []) := by
+      intro ts
+      have hm := hmemsub ts
+      generalize subsOf inds ts = subs at hm
+      cases subs with
+      | nil => rfl
+      | cons s0 rest =>
+        simp only [List.map_cons, List.headD_cons, List.all_cons, List.all_map]
+        congr 1
+        · exact map_beq_map f inds h s0 s0 (hm s0 (by simp)) (hm s0 (by simp))
+        · rw [Bool.eq_iff_iff]
+          simp only [List.all_eq_true, Function.comp_apply]
+          constructor
+          · intro H s hs
+            rw [← map_beq_map f inds h s s0 (hm s (List.mem_cons_of_mem _ hs)) (hm s0 (by simp))]
+            exact H s hs
+          · intro H s hs
+            rw [map_beq_map f inds h s s0 (hm s (List.mem_cons_of_mem _ hs)) (hm s0 (by simp))]
+            exact H s hs
+    have hcp : ∀ a b, changePositions (((inds.map f).drop a).take b) = changePositions ((inds.drop a).take b) := by
+      intro a b
+      have : ((inds.map f).drop a).take b = ((inds.drop a).take b).map f := by simp [List.map_take, List.map_drop]
+      rw [this]
+      exact changePositions_map f _ (h.sub (fun x hx => List.mem_of_mem_drop (List.mem_of_mem_take hx)))
+    simp only [hall, hcp]
+
+end Usid.UV
